@@ -14,8 +14,8 @@ RULE = ("family 'service': a Runnable subclass whose do() outcomes follow a gene
         "'notify': a NotificationManager with 1-3 producer threads raising generated notifications and a handler that raises on chosen items. Every run is one seed of the scheduler (which thread "
         "continues at each of the ~50-500 scheduling points; pre-emption probability per traced line in {0, 0.02, 0.1, 0.3}). Oracles: the wait requested after the k-th consecutive failure is exactly "
         "min(max, min*mult^(k-1)), a success that did something returns to the plain sleep, a no-op keeps the backoff; no do() is logged after stop() returned from another thread (or after wait() "
-        "following stop(wait=False)); done() ran exactly once when the final stop reached a live loop (a final stop of a service that had already exited after a non-final stop runs no cleanup: by the code's design, see ASSUMPTIONS) and never twice; start() after a final stop raises; no exception leaves start/stop/wake/wait; every notification is delivered "
-        "exactly once, in per-producer order, one at a time, and deliveries continue after a handler exception. distinct = (scenario shape, scheduler digest); non-trivial = >=1 real thread switch "
+        "following stop(wait=False)); done() ran exactly once when the final stop reached a live loop (a final stop of a service that had already exited after a non-final stop runs no cleanup: by the code's design, see ASSUMPTIONS) and never twice; start() after a final stop raises; no exception leaves start/stop/wake/wait; every notification raised is delivered "
+        "at most once and - unless the service is stopped with items still queued - exactly once, in per-producer order, one at a time, and deliveries continue after a handler exception. distinct = (scenario shape, scheduler digest); non-trivial = >=1 real thread switch "
         "happened while the service loop was alive.")
 ASSUMPTIONS = ["'cleanup exactly once if the stop was final' is judged when the final stop() is issued while the loop is alive and no earlier non-final stop is still in flight; Runnable runs done() only from the loop's own exit path, so a final stop of an already exited service runs none",
                "scheduling points are the sim primitives plus traced Python lines of runnable.py / notification.py; interleavings inside C code or between bytecodes of one line are not explored",
@@ -255,6 +255,7 @@ def _run_notify(case):
                 super().done()
         nm = NM(handler)
         restart = [None]
+        at_stop = [0]
 
         def producer(pid, n, gap):
             for i in range(n):
@@ -272,6 +273,7 @@ def _run_notify(case):
             for t in ths:
                 t.join()
             s.sleep(sc.get("idle", 1.0))
+            at_stop[0] = len(delivered)
             try:
                 nm.stop(forever=True, wait=True)
             except BaseException as e:      # pylint: disable=broad-except
@@ -295,10 +297,10 @@ def _run_notify(case):
             pass
     finally:
         T.uninstall()
-    return s, delivered, overlap[0], errors, ndone[0], restart[0]
+    return s, delivered, overlap[0], errors, ndone[0], restart[0], at_stop[0]
 
 
-def _notify_violation(case, s, delivered, overlap, errors, ndone=1, restart="raised"):
+def _notify_violation(case, s, delivered, overlap, errors, ndone=1, restart="raised", at_stop=None):
     sc = case["scenario"]
     if s.aborted and s.aborted != "finished":
         return ("hang", "the scheduler gave up: %s" % s.aborted)
@@ -309,9 +311,10 @@ def _notify_violation(case, s, delivered, overlap, errors, ndone=1, restart="rai
     if overlap:
         return ("handler-overlap", "two notifications were inside the application's handler at the same time")
     want = ["p%d-%d" % (pid, i) for pid, (n, gap) in enumerate(sc["producers"]) for i in range(n)]
-    if sorted(delivered) != sorted(want):
-        missing = sorted(set(want) - set(delivered))
-        dup = sorted(set(x for x in delivered if delivered.count(x) > 1))
+    complete = at_stop is None or at_stop >= len(want)      # everything had been handed to the handler before stop() was called
+    dup = sorted(set(x for x in delivered if delivered.count(x) > 1))
+    missing = sorted(set(want) - set(delivered))
+    if dup or set(delivered) - set(want) or (complete and missing):
         return ("delivery", "notifications not delivered exactly once: missing %s duplicated %s (raising handler on %s)" % (missing[:5], dup[:5], sc["raise_on"]))
     if ndone != 1:
         return ("done-count", "the notification service was finally stopped while its loop was alive; cleanup ran %r time(s)" % (ndone,))
@@ -338,8 +341,8 @@ def _evaluate(case):
         v = _service_violation(case, s, hist, errors, info, ndone)
         shape = "svc|%s|%s|%s" % (",".join(case["scenario"]["outcomes"]), ";".join("%s" % a[0] + ("%s%s" % (int(a[1]), int(a[2])) if a[0] == "stop" else "") for a in case["scenario"]["script"]), s.digest())
     else:
-        s, delivered, overlap, errors, nd, rs = _run_notify(case)
-        v = _notify_violation(case, s, delivered, overlap, errors, nd, rs)
+        s, delivered, overlap, errors, nd, rs, ats = _run_notify(case)
+        v = _notify_violation(case, s, delivered, overlap, errors, nd, rs, ats)
         shape = "ntf|%s|%s|%s" % (case["scenario"]["producers"], case["scenario"]["raise_on"], s.digest())
     st = {"shape": shape, "nontrivial": s.switches >= 2, "fingerprints": [s.digest()], "sim_s": s.now - T.T0, "faults": {"preemptions": s.preempts, "thread-switches": s.switches},
           "probes": {"scheduling-decisions": s.decisions}, "family": case["family"], "digest": s.digest(),
